@@ -505,30 +505,71 @@ def _add_list(v):
 
 def _entry(ctx, model, dm):
     init = dm.members.get("__init__")
-    ok = False
-    for i in ast.walk(init.node):
-        if isinstance(i, ast.If) and i.body and isinstance(i.body[0], ast.Raise):
-            t = ast.unparse(i.test).replace(" ", "")
-            if t == "allowed_nonsmoothnessnotin['none','continuous'," \
-                    "'discontinuous']":
-                ok = True
+    # path rule: construction completes only when the setting is one of the
+    # three known values
+    SET = ("param", "allowed_nonsmoothness")
+    WANT = {"none", "continuous", "discontinuous"}
+    ok = True
+    saw_end = saw_raise = False
+    for ps in summarize(init.node, node_param=False):
+        member = None
+        for _, pol, v in ps.conds:
+            if isinstance(v, tuple) and v[0] == "compare" and \
+                    v[1] in (("NotIn",), ("In",)) and len(v[3]) == 1 and \
+                    isinstance(v[3][0], tuple) and v[3][0][0] in ("lit", "seq") \
+                    and v[2] in (SET, ("const", "none")):
+                vals = {x[1] for x in v[3][0][2] if x[0] == "const"}
+                inside = pol if v[1] == ("In",) else not pol
+                member = (vals, inside)
+        if ps.term == "raise":
+            saw_raise = True
+            continue
+        saw_end = True
+        if member is None or not member[1] or member[0] != WANT:
+            ok = False
+    ok = ok and saw_end and saw_raise
     ctx.ob("P/__init__/setting-validated", ok, dm.loc(),
            "an unknown allowed_nonsmoothness value is rejected" if ok else
-           "DifferentiationMapper.__init__ does not validate "
-           "allowed_nonsmoothness")
+           "DifferentiationMapper.__init__ can complete with an "
+           "allowed_nonsmoothness outside {'none', 'continuous', "
+           "'discontinuous'}")
     m, fn = model.func(f"{DIFF}:differentiate")
-    ok = False
+    ok = True
+    n_ret = 0
     for ps in summarize(fn, plain=True):
-        if ps.term == "return":
-            rv = ps.retval
-            inner = rv[4] if len(rv) >= 5 else None
-            if rv[0] == "call" and rv[2] == (("param", "expression"),):
-                pass
-        # string variables are normalised on the not-a-node path
-    src = ast.unparse(fn).replace(" ", "").replace("\n", "")
-    ok = "variable=primitives.make_variable(variable)" in src and \
-        "allowed_nonsmoothness=allowed_nonsmoothness)(expression)" in src and \
-        "DifferentiationMapper(variable,func_mapper," in src
+        if ps.term != "return":
+            continue
+        n_ret += 1
+        rv = ps.retval
+        callee = rv[4] if len(rv) >= 5 else None
+        good = rv[0] == "call" and rv[2] == (("param", "expression"),) and \
+            isinstance(callee, tuple) and callee[0] == "call" and \
+            callee[1] == "DifferentiationMapper"
+        if good:
+            pos = list(callee[2])
+            kw = dict(callee[3])
+            var = pos[0] if pos else kw.get("variable")
+            setting = pos[2] if len(pos) > 2 else kw.get("allowed_nonsmoothness")
+            fm = pos[1] if len(pos) > 1 else kw.get("func_mapper")
+            # was the variable already a node on this path?
+            is_node = None
+            for _, pol, v in ps.conds:
+                while isinstance(v, tuple) and v[0] == "unop" and v[1] == "Not":
+                    v, pol = v[2], not pol
+                if isinstance(v, tuple) and v[0] == "call" and \
+                        v[1] == "isinstance" and v[2][0] == ("param", "variable"):
+                    is_node = pol
+            norm = ("call", "primitives.make_variable", (("param", "variable"),),
+                    ())
+            good = setting == SET and fm == ("param", "func_mapper") and (
+                (is_node is True and var == ("param", "variable")) or
+                (is_node is False and var is not None and var[0] == "call"
+                 and var[1].endswith("make_variable")
+                 and var[2] == (("param", "variable"),)) or
+                (is_node is None and var is not None and var[0] == "call"
+                 and var[1].endswith("make_variable")))
+        ok = ok and good
+    ok = ok and n_ret >= 1
     ctx.ob("P/differentiate/entry", ok, m.loc(fn),
            "differentiate() normalises the variable and passes the setting on"
            if ok else
